@@ -219,6 +219,28 @@ func (s *SFTPStore) HasChunk(id ChunkID) (bool, error) {
 	return true, nil
 }
 
+// isSFTPTempChunk returns true for names StoreObject uses for its temporary
+// files: a chunk ID, the chunk extension if any, and a decimal number.
+func isSFTPTempChunk(name string) bool {
+	const idLen = 64
+	if len(name) <= idLen {
+		return false
+	}
+	if _, err := ChunkIDFromString(name[:idLen]); err != nil {
+		return false
+	}
+	rest := strings.TrimPrefix(name[idLen:], CompressedChunkExt)
+	if rest == "" {
+		return false
+	}
+	for _, r := range rest {
+		if r < '0' || r > '9' {
+			return false
+		}
+	}
+	return true
+}
+
 // Prune removes any chunks from the store that are not contained in a list
 // of chunks
 func (s *SFTPStore) Prune(ctx context.Context, ids map[ChunkID]struct{}) error {
@@ -241,6 +263,12 @@ func (s *SFTPStore) Prune(ctx context.Context, ids map[ChunkID]struct{}) error {
 			continue
 		}
 		path := walker.Path()
+		// Remove what an interrupted StoreObject left behind: the name of a
+		// chunk file followed by a random number
+		if isSFTPTempChunk(filepath.Base(path)) {
+			_ = c.client.Remove(path)
+			continue
+		}
 		// Skip compressed chunks if this is running in uncompressed mode and vice-versa
 		var sID string
 		if c.opt.Uncompressed {
